@@ -587,6 +587,11 @@ type Result struct {
 	//
 	// TODO(d.kolyshev): Get rid of this flag.
 	IsFiltered bool `json:",omitempty"`
+	// CanonNameMatched is true if Reason is Rewritten and CanonName is itself
+	// matched by the legacy rewrites.  An empty IPList then means that the
+	// canonical name has no value for the requested type, so the response
+	// must be empty as opposed to being resolved upstream.
+	CanonNameMatched bool `json:"-"`
 }
 
 // Matched returns true if any match at all was found regardless of
@@ -692,9 +697,25 @@ func (d *DNSFilter) processRewrites(host string, qtype uint16) (res Result) {
 		rewrites, matched = findRewrites(d.conf.Rewrites, host, qtype)
 	}
 
+	// The canonical name is known to the rewrites unless it hasn't matched at
+	// all, is a wildcard exception that must be resolved upstream, or has an
+	// exception for the requested type.
+	res.CanonNameMatched = res.CanonName != "" &&
+		matched &&
+		(len(rewrites) == 0 || rewrites[0].Type != dns.TypeCNAME) &&
+		!hasTypeException(rewrites, qtype)
+
 	setRewriteResult(&res, host, rewrites, qtype)
 
 	return res
+}
+
+// hasTypeException returns true if rewrites contain the "A" or "AAAA" exception
+// for qtype.
+func hasTypeException(rewrites []*LegacyRewrite, qtype uint16) (ok bool) {
+	return slices.ContainsFunc(rewrites, func(rw *LegacyRewrite) (ok bool) {
+		return rw.Type == qtype && rw.Type != dns.TypeCNAME && rw.IP == netip.Addr{}
+	})
 }
 
 // matchBlockedServicesRules checks the host against the blocked services rules
